@@ -308,7 +308,11 @@ def rule_serving_is_readonly(ctx):
         n += 1
         if not any(lv == k or lv.startswith(k) for k in SERIALISER_MAY_WRITE):
             ctx.report('R19.4', 'serialiser:writes:%s' % lv, 'src %s line %s' % (f, line), 'the serialiser writes %s, which is not on the list of members it may touch' % lv)
-    ctx.covered('R19.4', 'serving is read-only: calls made by the server thread on the live simulation; calls and member writes of the serialiser (transitively through the integrator init hooks)', n, floor=8,
+    from . import capacity
+    nt, st = capacity.rule_capacity_trim(ctx, 'R19.4', 'output.c', 'reb_simulation_save_to_stream')
+    anchor(nt >= 1, 'the serialiser trims ri_ias15.N_allocated before writing')
+    n += nt
+    ctx.covered('R19.4', 'serving is read-only: calls made by the server thread on the live simulation; calls and member writes of the serialiser (transitively through the integrator init hooks); the one capacity it trims is trimmed to the owner\'s size', n, floor=9,
                 samples=['serialiser reaches %s; writes %s' % (sorted(seen), sorted({w[1] for w in writes}))])
 
 
